@@ -391,7 +391,7 @@ class Translator:
     def same_text(self, m, decos, params, body, node, msg):
         got = [s for s in m.body if not is_doc(s)]
         if [ast.unparse(d) for d in m.decorator_list] != decos or ast.unparse(m.args) != params or \
-                [ast.dump(s) for s in got] != [ast.dump(s) for s in ast.parse(body).body]:
+                gen.alpha_dump(got) != gen.alpha_dump(ast.parse(body).body):
             self.bad(node, msg)
 
     # ---------------------------------------------------------------- pins
@@ -1173,7 +1173,7 @@ def gen_hands_fns(path=None, overrides=None):
     try:
         raw = parse(REL)
         # extract-method / conditional normal forms first (gen.py): a harmless restructuring gives the same translation
-        tree = gen.normalise_ifs(gen.inline_private_helpers(parse(REL), CLASS, set(NAMES) | set(LOCAL_PINS)), 'expr')
+        tree = gen.comprehension_to_loop(gen.normalise_ifs(gen.inline_private_helpers(parse(REL), CLASS, set(NAMES) | set(LOCAL_PINS)), 'expr'))
         tr = Translator(tree, raw)
         defs = tr.run()
         tables = tr.tables()
